@@ -248,6 +248,7 @@ class SymExec:
             return None
         if cname in self.B.overrides:
             self.B.note('call to %s answered by the spec-level contract registered for it (assumed here, enforced elsewhere)' % cname)
+            self.B.override_pc = pc          # the path condition under which the contract-answered call is made (readable by the spec)
             return self.B.overrides[cname](args)
         fn = self.prog.functions.get(cname)
         if fn is None:
